@@ -399,14 +399,16 @@ class ViewsStream(Stream):
         ["v", "stop", 10],
         ["v", "stop", None],
         ["v", "length", 100],
+        ["v", "length", 0],
         ["v", "length", None],
         ["v", "set", 0, 10, 100, "bytes"],
         ["v", "set", 5, 8, None, "items"],
         ["v", "set", None, None, 7, "bytes"],
+        ["v", "set", None, None, 0, "bytes"],
         ["v", "set", 5, 2, None, "bytes"],
         ["v", "unset"],
     ]
-    CRX = [["f"], ["as", "none"], ["as", "str", "bytes 0-4/10"], ["as", "view", "bytes", 2, 5, 9], ["h", "set", "Content-Range", "bytes */20"], ["h", "set", "content-range", "junk"], ["h", "remove", "Content-Range"]]
+    CRX = [["f"], ["as", "none"], ["as", "str", "bytes 0-4/10"], ["as", "view", "bytes", None, None, 0], ["h", "set", "Content-Range", "bytes */0"], ["as", "view", "bytes", 2, 5, 9], ["h", "set", "Content-Range", "bytes */20"], ["h", "set", "content-range", "junk"], ["h", "remove", "Content-Range"]]
     AUTHV = [
         ["v", "type", "digest"],
         ["v", "type", "bearer"],
@@ -456,7 +458,7 @@ class ViewsStream(Stream):
         "set": (["Vary", "Allow", "Content-Language"], SETV, SETX, [[], [["Vary", "Cookie"], ["Allow", "GET, HEAD"], ["Content-Language", "en, de"]], [["vary", "a, B,\"b c\""], ["X", "1"], ["Vary", "dup"], ["allow", "Get"], ["content-language", "en"]]]),
         "cc": (["Cache-Control"], CCV, CCX, [[], [["Cache-Control", "no-cache, max-age=3600, private=\"x, y\""]], [["cache-control", "max-age=abc, no-store, s-maxage"], ["X", "1"]]]),
         "csp": (["Content-Security-Policy", "Content-Security-Policy-Report-Only"], CSPV, CSPX, [[], [["Content-Security-Policy", "default-src 'self'; img-src *"], ["Content-Security-Policy-Report-Only", "script-src x"]], [["content-security-policy", "sandbox; a b;  c   d e "], ["content-security-policy-report-only", "a b"]]]),
-        "cr": (["Content-Range"], CRV, CRX, [[], [["Content-Range", "bytes 0-9/100"]], [["content-range", "items */5"], ["X", "y"]]]),
+        "cr": (["Content-Range"], CRV, CRX, [[], [["Content-Range", "bytes 0-9/100"]], [["content-range", "items */5"], ["X", "y"]], [["Content-Range", "bytes */0"]]]),
         "auth": (["WWW-Authenticate"], AUTHV, AUTHX, [[], [["WWW-Authenticate", "Basic realm=\"login\""]], [["www-authenticate", "Digest realm=\"r\", nonce=\"n\", qop=auth"], ["WWW-Authenticate", "Basic realm=second"]], [["WWW-Authenticate", "Bearer abc=="]]]),
         "mp": (["Content-Type"], MPV, MPX, [[], [["Content-Type", "text/html; charset=utf-8"]], [["content-type", "multipart/form-data; boundary=\"x y\"; a=b"]]]),
     }
@@ -473,6 +475,11 @@ class ViewsStream(Stream):
         # F16e regression (repaired by 78ff821): the type setter lower-cases
         {"fam": "auth", "prop": "WWW-Authenticate", "init": [], "ops": [["v", "token", "abc"], ["v", "type", "Basic"]]},
         {"fam": "auth", "prop": "WWW-Authenticate", "init": [["WWW-Authenticate", "Basic realm=\"x\""]], "ops": [["v", "type", "DIGEST"], ["v", "setitem", "nonce", "n"]]},
+        # boundary: length 0 (only valid in the unsatisfied form) must be written as 0, not *
+        {"fam": "cr", "prop": "Content-Range", "init": [], "ops": [["v", "set", None, None, 0, "bytes"]]},
+        {"fam": "cr", "prop": "Content-Range", "init": [["Content-Range", "bytes */7"]], "ops": [["v", "length", 0], ["f"]]},
+        {"fam": "cr", "prop": "Content-Range", "init": [], "ops": [["as", "view", "bytes", None, None, 0], ["f"]]},
+        {"fam": "cr", "prop": "Content-Range", "init": [["Content-Range", "bytes */0"]], "ops": [["f"], ["v", "units", "items"]]},
         # F16b (known): an update on a challenge with neither token nor parameters
         {"fam": "auth", "prop": "WWW-Authenticate", "init": [], "ops": [["v", "setattr", "x", None]]},
     ]
